@@ -9,8 +9,8 @@ namespace Lopdf.FileRT
 open Lopdf Gen
 
 /-- the rest of `Reader::read` after the cross-reference data are known (the code of
-`loadDocOrd` from the object pass on, verbatim) -/
-def objectPass (order : Option (List Nat)) (buf version mark : Bytes) (x : XTable) (tr : Dict) (xs : Nat) :
+`loadDocWith` from the object pass on, verbatim) -/
+def objectPass (arr : List Block → List Block) (buf version mark : Bytes) (x : XTable) (tr : Dict) (xs : Nat) :
     Outcome Loaded :=
   let size := x.maxId + 1
   let xs' := x.sorted
@@ -19,8 +19,8 @@ def objectPass (order : Option (List Nat)) (buf version mark : Bytes) (x : XTabl
   | .panic s => .panic s
   | .err e => .err e
   | .ok (os, fromStm) =>
-    let blocks := match order with | none => fromStm | some p => permuteBlocks fromStm p
-    let os1 := mergeBlocks os blocks
+    let arrived := arr fromStm
+    let os1 := mergeBlocksX x os arrived
     let fin := os1.map fun (p : ObjId × LObj) =>
       match p.2 with
       | .plain (.stream d c) =>
@@ -73,14 +73,14 @@ theorem mark_notEol : ∀ b : UInt8, b ≥ 128 → notEol b = true := by
 /-- **The front of `Reader::read`** on any file of the shape `%PDF-<version>\n%<mark>\n…` whose
 `startxref` is found and whose newest section has no `Prev`: the reader enters the object pass
 with that section's table and trailer. -/
-theorem load_front (order : Option (List Nat)) (out version mark R : Bytes)
+theorem load_front (arr : List Block → List Block) (out version mark R : Bytes)
     (hout : out = PDF_KW ++ (version ++ 10 :: 37 :: (mark ++ 10 :: R)))
     (hv1 : ∀ b ∈ version, notEol b = true) (hv2 : validUtf8 version = true)
     (hmark : (mark.all fun b => b ≥ 128) = true)
     (xs : Nat) (hxs : getXrefStart out = some xs) (hle : xs ≤ out.length)
     (x0 : XTable) (sz : Nat) (tr0 : Dict) (hxt : xrefAndTrailer (out.drop xs) = .ok (x0, sz, tr0))
     (hprev : tr0.get PREV = none) (hmax : x0.maxId + 1 < U32) (henc : tr0.has ENCRYPT = false) :
-    loadDocOrd order out = objectPass order out version mark x0 tr0 xs := by
+    loadDocWith arr out = objectPass arr out version mark x0 tr0 xs := by
   have hoff : findFrom PDF_KW (out.length + 1) out 0 = some 0 := by
     rw [hout]; simp [PDF_KW, findFrom, List.isPrefixOf]
   have hhead : pHeader out = some version := by
@@ -116,7 +116,7 @@ theorem load_front (order : Option (List Nat)) (out version mark R : Bytes)
     simp [eol]
   have hnot : ¬ (xs > out.length) := by omega
   have hmx : ¬ (x0.maxId + 1 ≥ U32) := by omega
-  unfold loadDocOrd
+  unfold loadDocWith
   simp only [hoff, List.drop_zero, hhead, hpos, hdrop, hbm, hmark, if_true, hxs, hnot, if_false, hxt, hprev,
     prevLoop, Option.bind_none, Dict_remove_absent tr0 PREV hprev, hmx, henc, Bool.false_eq_true]
   rfl
@@ -176,7 +176,7 @@ text without line breaks and valid UTF-8, trailer without `Prev`/`Encrypt`, trai
 reads back): the reader finds `%PDF-` at offset 0, reads header and binary mark back, finds
 `startxref`, decodes the table, leaves the `Prev` loop at once and runs its object pass on
 exactly the recorded table — every entry of which points at its object's `n g obj` header. -/
-theorem load_front_of_save_table (order : Option (List Nat)) (d : SDoc) (out : Bytes) (d' : SDoc)
+theorem load_front_of_save_table (arr : List Block → List Block) (d : SDoc) (out : Bytes) (d' : SDoc)
     (hk : d.xrefKind = .table) (h : saveFrom [] d = some (out, d')) (hlen : out.length < 4294967296)
     (hmax : d.maxId + 1 ≤ 4294967295) (hg : GensOk d)
     (hD : DictReadsBack d'.trailer (STARTXREF_KW ++ natDigits (bodyOf [] d).length ++ EOF_KW))
@@ -186,8 +186,8 @@ theorem load_front_of_save_table (order : Option (List Nat)) (d : SDoc) (out : B
       (∀ n, table.get n = if 1 ≤ n ∧ n < d.maxId + 1 then normalOf (xmapOf [] d) n else none) ∧
       (∀ n off g, table.get n = some (.normal off g) → HeaderAt out off n g) ∧
       (table.map (·.1)).Nodup ∧
-      loadDocOrd order out
-        = objectPass order out d.version d.binaryMark table d'.trailer (bodyOf [] d).length := by
+      loadDocWith arr out
+        = objectPass arr out d.version d.binaryMark table d'.trailer (bodyOf [] d).length := by
   obtain ⟨xs, table, hxs, hle, hxt, hget, hhdr, hnodup⟩ := load_xref_of_save_table [] d out d' hk h hlen hmax hg hD
   have hxs' : xs = (bodyOf [] d).length := by
     have := startxref_found [] d out d' h hlen
@@ -198,7 +198,7 @@ theorem load_front_of_save_table (order : Option (List Nat)) (d : SDoc) (out : B
   have k1 : ¬ SIZE = PREV := by decide
   have k2 : ¬ SIZE = ENCRYPT := by decide
   refine ⟨table, hget, hhdr, hnodup, ?_⟩
-  apply load_front order out d.version d.binaryMark R hR hv1 hv2 (saveFrom_mark [] d out d' h) _ hxs hle
+  apply load_front arr out d.version d.binaryMark R hR hv1 hv2 (saveFrom_mark [] d out d' h) _ hxs hle
     table (d.maxId + 1) d'.trailer hxt
   · rw [htr, Dict_get_set]; simp only [k1, if_false]; exact hprev
   · have : table.maxId ≤ d.maxId := by
